@@ -197,6 +197,18 @@ pub fn faults_of(base: &PortableRegistry) -> Vec<Fault> {
             }
         }
     }
+    // every dangling reference once to the first missing id (== len) and once further out
+    let more: Vec<Fault> = v
+        .iter()
+        .filter_map(|f| match f {
+            Fault::Dangling { site, .. } => Some(Fault::Dangling {
+                site: site.clone(),
+                to: n,
+            }),
+            _ => None,
+        })
+        .collect();
+    v.extend(more);
     v.push(Fault::CompactPathNone);
     v.push(Fault::BitsPathNone);
     v
@@ -453,6 +465,7 @@ pub fn check_fault(base_prog: &Program, base: &PortableRegistry, fault: &Fault, 
     // ---- resolve_type_path for every id (and the missing one)
     if first_bad_id.is_none() {
         let mut ids: Vec<u32> = (0..reg.types.len() as u32).collect();
+        ids.push(reg.types.len() as u32);
         ids.push(reg.types.len() as u32 + 2);
         for id in ids {
             ctx.exec(1);
